@@ -386,6 +386,19 @@ class Check:
         f.write_text(json.dumps(obj, indent=1, sort_keys=True))
         return f'replays/{f.name}'
 
+    def _oracle_safe(self, c, io):
+        """the property oracle; an observation it cannot even interpret (never the case on the unchanged tree)
+        is itself reported, with the case as the failing input, instead of ending the run as an
+        infrastructure error"""
+        try:
+            return self.oracle(c, io)
+        except Infra:
+            raise
+        except Exception as e:
+            return {'what': f'the observation cannot be interpreted by the property oracle ({type(e).__name__}: {e}): '
+                            'its shape differs from every observation the unchanged code produces',
+                    'signature': f'{self.PROP.lower()}:uninterpretable'}
+
     def run(self):
         known = load_known()
         open_sigs = {k['signature']: k for k in known.get('open', []) if k['property'] == self.PROP}
@@ -464,7 +477,7 @@ class Check:
                 if d is not None:
                     disagreements.append((c, d))
         for c, io in zip(cases, impl_outs):
-            v = self.oracle(c, io)
+            v = self._oracle_safe(c, io)
             if v:
                 v = dict(v); v['case'] = c; v['observed'] = io
                 note_violation(v)
@@ -480,7 +493,7 @@ class Check:
             searched = len(more)
             if outs is not None:
                 for c, io in zip(more, outs):
-                    v = self.oracle(c, io)
+                    v = self._oracle_safe(c, io)
                     if v:
                         v = dict(v); v['case'] = c; v['observed'] = io
                         note_violation(v)
@@ -536,7 +549,7 @@ class Check:
                 try:
                     v['case'] = self.shrink(v['case'], lambda c: self._still_violates(c, v))
                     outs = self.impl([v['case']])
-                    w = self.oracle(v['case'], outs[0]) if outs else None
+                    w = self._oracle_safe(v['case'], outs[0]) if outs else None
                     if w:
                         v.update(w); v['observed'] = outs[0]
                 except Exception as e:
@@ -563,7 +576,7 @@ class Check:
         outs = self.impl([case])
         if not outs:
             return False
-        w = self.oracle(case, outs[0])
+        w = self._oracle_safe(case, outs[0])
         return bool(w) and w.get('signature') == v.get('signature')
 
     def replay(self, path):
@@ -575,7 +588,7 @@ class Check:
         if case is None:
             print(json.dumps(obj, indent=1)); return 0
         outs = self.impl([case])
-        v = self.oracle(case, outs[0]) if outs else {'what': 'impl runner failed'}
+        v = self._oracle_safe(case, outs[0]) if outs else {'what': 'impl runner failed'}
         print(json.dumps({'case': case, 'observed': outs[0] if outs else None, 'oracle': v}, indent=1))
         if v:
             print(f'VIOLATION property={self.PROP} replay={path}')
